@@ -8,7 +8,7 @@ after the other, without lengths. Proved here:
                                          one known length, the text fields are plain text without line feeds, and the numbers
                                          fit — the hypothesis the proof forced;
 * `c09_layout_boundary_counterexample`  the code as it is does not enforce that for the leader's, the remaining and the leaving
-                                         participants' signature fields: two different records, one byte string (finding 24:
+                                         participants' signature fields: two different records, one byte string (finding "list boundary inside a signature field":
                                          a relay can move a list boundary for any receiver that does not hold the previous
                                          group — joiners, fresh or left nodes — without breaking the leader's signature);
 * `c09_fixed_enforces_sig_lengths`, `c09_signed_bytes_bind_terms_fixed`  the variant with reports/dkg_fix_1.diff
